@@ -37,3 +37,71 @@ package state
 //@   ensures accept-newer [C03]: result == nil ==> old(sh.latest) < seqTime && sh.latest == seqTime
 //@   ensures reject-keeps [C03]: result != nil ==> sh.latest == old(sh.latest)
 //@   ensures newer-accepted [C03]: old(sh.latest) < seqTime ==> result == nil
+
+//@ pred rollCond(highest uint32, seqNum uint32) = highest >= 0xFFFFFF00 && seqNum <= 255
+
+// issued: sequence numbers handed out since the counter was last reset (one key epoch).
+//@ type SequenceHandler
+//@   ghost issued map[uint32]bool
+//@   invariant I: forall s uint32 :: self.issued[s] ==> (s != 0 && s <= self.outSeq.v)
+
+// The outgoing counter is only advanced under the session lock (EncryptionSession.Out holds s.lock).
+//@ func SequenceHandler.NextOut
+//@   callers EncryptionSession.Out
+//@   modifies sh.outSeq.v
+//@   update when rollover: reset sh.issued
+//@   update when true: sh.issued[seqNum] = true
+//@   ensures nonzero [C15]: seqNum != 0
+//@   ensures step [C15]: !rollover ==> seqNum == old(sh.outSeq.v) + 1 && sh.outSeq.v == seqNum
+//@   ensures wrap [C15]: rollover == (old(sh.outSeq.v) == 0xFFFFFFFF)
+//@   ensures restart [C15]: rollover ==> seqNum == 1 && sh.outSeq.v == 1
+//@   ensures unique [C15]: !rollover ==> !old(sh.issued[seqNum])
+
+//@ type EncryptionSession
+//@   ghost outEpoch int
+//@   ghost inEpoch int
+//@   invariant handlers: self.prioSeqHandler != nil && self.reglSeqHandler != nil && self.prioSeqHandler != self.reglSeqHandler
+
+//@ func EncryptionSession.rolloverOutKey
+//@   modifies s.outKey, s.outCipher
+//@   update when result == nil: s.outEpoch = old(s.outEpoch) + 1
+//@   ensures cipher: result == nil ==> s.outCipher != nil
+
+//@ func EncryptionSession.rolloverInKey
+//@   modifies s.inKey, s.inCipher
+//@   update when result == nil: s.inEpoch = old(s.inEpoch) + 1
+//@   ensures cipher: result == nil ==> s.inCipher != nil
+
+//@ func EncryptionSession.Out
+//@   modifies s.lock, s.outKey, s.outCipher, s.reglSeqHandler.outSeq.v, s.prioSeqHandler.outSeq.v, s.prioSeqHandler.highest, s.prioSeqHandler.lock, s.reglSeqHandler.lock, s.reglSeqHandler.issued, s.prioSeqHandler.issued, s.prioSeqHandler.seen, s.outEpoch
+//@   ensures nonzero [C15]: err == nil ==> seqNum != 0 && c != nil
+//@   ensures unique-regular [C15]: err == nil && !prio && s.outEpoch == old(s.outEpoch) ==> !old(s.reglSeqHandler.issued[seqNum]) && s.reglSeqHandler.issued[seqNum]
+//@   ensures unique-priority [C15]: err == nil && prio ==> !old(s.prioSeqHandler.issued[seqNum]) && s.prioSeqHandler.issued[seqNum] && s.outEpoch == old(s.outEpoch)
+//@   ensures rollover-at-wrap [C15]: err == nil && !prio ==> (s.outEpoch == old(s.outEpoch) + 1) == (old(s.reglSeqHandler.outSeq.v) == 0xFFFFFFFF)
+//@   ensures rollover-restarts-priority [C15]: err == nil && s.outEpoch != old(s.outEpoch) ==> s.prioSeqHandler.outSeq.v == 0 && seqNum == 1
+//@   ensures no-epoch-skip [C15]: s.outEpoch == old(s.outEpoch) || s.outEpoch == old(s.outEpoch) + 1
+
+//@ func EncryptionSession.In
+//@   modifies s.lock, s.inKey, s.inCipher, s.reglSeqHandler.highest, s.prioSeqHandler.highest, s.prioSeqHandler.outSeq.v, s.prioSeqHandler.lock, s.reglSeqHandler.lock, s.reglSeqHandler.seen, s.prioSeqHandler.seen, s.prioSeqHandler.issued, s.inEpoch
+//@   ensures cipher [C15]: err == nil ==> c != nil
+//@   ensures rollover-cond [C15]: err == nil && !prio ==> (s.inEpoch == old(s.inEpoch) + 1) == rollCond(old(s.reglSeqHandler.highest), seqNum)
+//@   ensures rollover-restarts [C15]: err == nil && s.inEpoch != old(s.inEpoch) ==> s.reglSeqHandler.highest == 0 && s.prioSeqHandler.highest == 0
+//@   ensures prio-never-rolls [C15]: prio ==> s.inEpoch == old(s.inEpoch)
+//@   ensures no-epoch-skip [C15]: s.inEpoch == old(s.inEpoch) || s.inEpoch == old(s.inEpoch) + 1
+//@   ensures windows-kept [C03]: s.inEpoch == old(s.inEpoch) && err == nil ==> s.reglSeqHandler.highest == old(s.reglSeqHandler.highest) && s.prioSeqHandler.highest == old(s.prioSeqHandler.highest) && (forall q uint32 :: s.reglSeqHandler.seen[q] == old(s.reglSeqHandler.seen[q]) && s.prioSeqHandler.seen[q] == old(s.prioSeqHandler.seen[q]))
+
+//@ func EncryptionSession.Check
+//@   modifies s.reglSeqHandler.bitMap, s.reglSeqHandler.highest, s.reglSeqHandler.lock, s.prioSeqHandler.bitMap, s.prioSeqHandler.highest, s.prioSeqHandler.lock, s.reglSeqHandler.seen, s.prioSeqHandler.seen
+//@   ensures once-regular [C03]: result == nil && !prio ==> !old(s.reglSeqHandler.seen[seqNum]) && s.reglSeqHandler.seen[seqNum]
+//@   ensures once-priority [C03]: result == nil && prio ==> !old(s.prioSeqHandler.seen[seqNum]) && s.prioSeqHandler.seen[seqNum]
+//@   ensures window-regular [C03]: (!prio && !old(s.reglSeqHandler.seen[seqNum]) && seqNum != 0 && (seqNum > old(s.reglSeqHandler.highest) || old(s.reglSeqHandler.highest) - seqNum <= 64)) ==> result == nil
+//@   ensures window-priority [C03]: (prio && !old(s.prioSeqHandler.seen[seqNum]) && seqNum != 0 && (seqNum > old(s.prioSeqHandler.highest) || old(s.prioSeqHandler.highest) - seqNum <= 64)) ==> result == nil
+//@   ensures other-class-untouched [C03]: (prio ==> s.reglSeqHandler.highest == old(s.reglSeqHandler.highest) && s.reglSeqHandler.bitMap == old(s.reglSeqHandler.bitMap)) && (!prio ==> s.prioSeqHandler.highest == old(s.prioSeqHandler.highest) && s.prioSeqHandler.bitMap == old(s.prioSeqHandler.bitMap))
+
+// In-order delivery keeps sender and receiver on the same key across the 32-bit wrap:
+// sender state o (last number issued), receiver state h (highest accepted), h == o.
+// The sender's next number is o+1, or 1 with a key rollover exactly when o == 0xFFFFFFFF (NextOut/Out);
+// the receiver rolls exactly under rollCond (RolloverRequired/In). Both therefore roll on the same frame.
+//@ lemma inorder-rollover-agreement: forall o uint32 :: (o == 0xFFFFFFFF) == rollCond(o, (o == 0xFFFFFFFF ? 1 : o + 1))
+// A frame can trigger a rollover only when the receiver is within 256 of the wrap and the number is at most 255.
+//@ lemma rollover-only-near-wrap: forall h uint32, q uint32 :: rollCond(h, q) ==> h >= 0xFFFFFF00 && q <= 255
